@@ -5,10 +5,30 @@ ROOT = os.path.dirname(os.path.dirname(os.path.abspath(__file__)))
 ALL = ["C%02d" % i for i in range(1, 21)]
 
 # id -> (technique, level text, level note, design ref)
+NSVM = "Trusts: native execution of the real entrypoint (nsvm: BPF-loader input format, commit-on-success, CPI to the real SPL Token / Token-2022 / ATA / memo processors, 60-line system program, Metaplex stub), five shims changing only off-chain branches, x86-64 vs SBF agreement on safe integer code. Search, not proof."
+HIST = "stateful property-based testing: proptest-generated operation histories executed through the real program entrypoint, "
 CLAIMED = {
+ "C01": (HIST + "BigUint claims-inequality oracle at every prefix + drain replay judged by the real SPL Token processor + closed-run no-extraction relation",
+         "Every prefix of every generated history is checked against three independent oracles (claims inequality from independently decoded accounts, full drain on a clone in a generated order, no-gain over closed swap runs incl. exact reverse swaps). Generated search with shrinking; not exhaustive.",
+         NSVM, "DESIGN.md §3 C01"),
+ "C02": ("property-based testing of compute_swap against an exact rational (BigUint) curve oracle with cost-targeted amount generators",
+         "16 M (quick) generated steps over the full u64/u128 domains, amounts aimed at the exact cost of reaching the target ±2; oracle = exact curve amounts, rounding direction, one-unit tightness, budget consumption. Only Ok results constrained, as the property states.",
+         "Trusts x86-64 vs SBF agreement on safe integer code; direction flag as passed by the callers.", "DESIGN.md §3 C02"),
+ "C05": (HIST + "harness ledger of requested liquidity deltas vs independently decoded pool / tick-array bytes after every instruction",
+         "After every successful instruction the pool's liquidity, every one of the 88 slots of every tick array (both encodings, decoded by the harness) and every position are compared with sums over a harness-side ledger.",
+         NSVM, "DESIGN.md §3 C05"),
+ "C06": (HIST + "per-step fee/protocol-cut/LP-growth formulas (H2 trace) vs pool fields, balance deltas of every token account and the Traded event; hook-free re-derivation on single-segment swaps",
+         "Every successful swap of every history is decomposed step by step and reconciled exactly with account deltas, pool accumulators and the emitted event; protocol-fee collection pays exactly what is owed.",
+         NSVM + " H2 trace hook, cross-validated hook-free.", "DESIGN.md §3 C06"),
+ "C07": (HIST + "exact pro-rata fee ledger (2^-192 fixed-point enclosure) with a derived two-sided rounding bound at every crediting",
+         "Two-sided bound: credited <= exact share and shortfall <= derived rounding slack, for every position at every crediting point, with accumulators started anywhere in u128.",
+         NSVM + " H2 trace for per-step LP fee (formula decided by C06).", "DESIGN.md §3 C07"),
  "C09": ("exhaustive enumeration of all 887,273 ticks + proptest-generated sqrt-prices against an exact-integer oracle",
          "Forward domain decided exhaustively (every tick: monotone, endpoints, exact 2^-32 ratio inequality, inverse at p(t), p(t)±1); inverse domain by generated prices with the bracket oracle p(t)<=x<p(t+1). Search, not proof, for the 2^96-sized price domain.",
          "Trusts that x86-64 and SBF code generation agree on safe integer code.", "DESIGN.md §3 C09"),
+ "C11": (HIST + "harness-owned clock, exact emission ledger per reward and position, exact comparison of growth accumulators, min(owed, vault) and one-day funding rules",
+         "Reward growth is recomputed exactly at every updating instruction; credited rewards are bounded on both sides by the exact pro-rata share; timestamp monotonicity, collection and rate-change rules checked on every occurrence.",
+         NSVM, "DESIGN.md §3 C11"),
 }
 NOT_YET = "check not built yet in this session (designed in DESIGN.md §3); not claimed until its check exists"
 
